@@ -82,15 +82,20 @@ def switch_program(cases_sets):
 class TraceGen:
     def __init__(self, rng): self.rng = rng; self.m = 0; self.v = 0; self.labels = 0; self.fn_labels = []
     def mark(self): self.m += 1; return 'M(%d);' % self.m
+    def e(self, k, v):
+        """an operand with the truth value v whose TYPE varies (int, long with all-zero low half, double, float, pointer, unsigned char):
+        the test of each operand of && || ?: ! must be made in the operand's own type"""
+        return '%s(%d, %d)' % (self.rng.choice(['E', 'E', 'EL', 'ED', 'EF', 'EP', 'EC']), k, v)
     def cond(self):
         r = self.rng.random()
         self.m += 2; a, b = self.m - 1, self.m
         if r < 0.3: return '(c%d++ %% 3)' % self.rng.randint(0, 3)
-        if r < 0.5: return '(E(%d, %d) && E(%d, %d))' % (a, self.rng.randint(0, 1), b, self.rng.randint(0, 1))
-        if r < 0.7: return '(E(%d, %d) || E(%d, %d))' % (a, self.rng.randint(0, 1), b, self.rng.randint(0, 1))
-        if r < 0.8: return '(E(%d, %d) ? E(%d, 1) : E(%d, 0))' % (a, self.rng.randint(0, 1), b, b)
-        if r < 0.9: return '(E(%d, 0), E(%d, %d))' % (a, b, self.rng.randint(0, 1))
-        return '(({ M(%d); E(%d, %d); }))' % (a, b, self.rng.randint(0, 1))
+        if r < 0.5: return '(%s && %s)' % (self.e(a, self.rng.randint(0, 1)), self.e(b, self.rng.randint(0, 1)))
+        if r < 0.7: return '(%s || %s)' % (self.e(a, self.rng.randint(0, 1)), self.e(b, self.rng.randint(0, 1)))
+        if r < 0.8: return '(%s ? E(%d, 1) : E(%d, 0))' % (self.e(a, self.rng.randint(0, 1)), b, b)
+        if r < 0.85: return '(!%s && !!%s)' % (self.e(a, self.rng.randint(0, 1)), self.e(b, self.rng.randint(0, 1)))      # sequenced operands only: == would leave the order unspecified
+        if r < 0.9: return '(E(%d, 0), %s)' % (a, self.e(b, self.rng.randint(0, 1)))
+        return '(({ M(%d); %s; }))' % (a, self.e(b, self.rng.randint(0, 1)))
     def stmt(self, depth, in_loop, in_switch):
         rng = self.rng; r = rng.random()
         if depth <= 0 or r < 0.25: return self.mark()
@@ -126,12 +131,35 @@ class TraceGen:
             self.labels += 2; a, b = 'L%d' % (self.labels - 1), 'L%d' % self.labels
             return '{ void *tab[2] = { &&%s, &&%s }; goto *tab[c%d++ %% 2]; %s: %s %s: %s }' % (a, b, self.rng.randint(0, 3), a, self.mark(), b, self.mark())
         return '{ %s %s }' % (self.stmt(depth - 1, in_loop, in_switch), self.stmt(depth - 1, in_loop, in_switch))
+    HELPERS = ('int printf(const char *, ...);\nint c0, c1, c2, c3;\nstatic void M(int k) { printf("%d ", k); }\nstatic int E(int k, int v) { printf("%d ", k); return v; }\n'
+               'static long EL(int k, int v) { printf("%d ", k); return (long)v << 32; }\nstatic double ED(int k, int v) { printf("%d ", k); return v ? 0.5 : 0.0; }\nstatic float EF(int k, int v) { printf("%d ", k); return v ? 1e-30f : -0.0f; }\n'
+               'static char *EP(int k, int v) { printf("%d ", k); return v ? "p" : (char *)0; }\nstatic unsigned char EC(int k, int v) { printf("%d ", k); return v ? 128 : 0; }\n'
+               'static long double EX(int k, int v) { printf("%d ", k); return v ? 1e-4000L : 0.0L; }\nstatic _Bool EB(int k, int v) { printf("%d ", k); return v; }\n')
+    @staticmethod
+    def typed_grid_programs():
+        """every connective x every pair of operand TYPES x every pair of truth values: the test of each operand must be made in that operand's type"""
+        ops = ['E', 'EL', 'ED', 'EF', 'EP', 'EC', 'EX', 'EB']
+        progs = []
+        for conn in ('&&', '||', '?:', 'stmt'):
+            lines = []
+            for a in ops:
+                for b in ops:
+                    for va in (0, 1):
+                        for vb in (0, 1):
+                            x, y = '%s(1, %d)' % (a, va), '%s(2, %d)' % (b, vb)
+                            if conn == '?:': lines.append('  M(%s ? (%s ? 10 : 11) : (!%s ? 12 : 13)); printf("\\n");' % (x, y, y))
+                            elif conn == 'stmt': lines.append('  if (%s) M(3); else M(4); { int n = 0; while (%s) { M(5); if (n++) break; } } { int n = 0; do { M(6); if (n++) break; } while (%s); } for (int n = 0; !%s; n++) { M(7); if (n) break; } printf("\\n");' % (x, y, x, y))
+                            else: lines.append('  M(10 + (%s %s %s)); M(20 + !(%s %s !%s)); printf("\\n");' % (x, conn, y, y, conn, x))
+            progs.append(TraceGen.HELPERS + 'int main(void) {\n' + '\n'.join(lines) + '\n  return 0; }\n')
+        return progs
     def program(self):
         fns = []
         for f in range(self.rng.randint(1, 3)):
             body = ' '.join(self.stmt(self.rng.randint(2, 4), False, False) for _ in range(self.rng.randint(1, 3)))
             fns.append('void f%d(void) { %s }' % (f, body))
         return ('int printf(const char *, ...);\nint c0, c1, c2, c3;\nstatic void M(int k) { printf("%d ", k); }\nstatic int E(int k, int v) { printf("%d ", k); return v; }\n' +
+                'static long EL(int k, int v) { printf("%d ", k); return (long)v << 32; }\nstatic double ED(int k, int v) { printf("%d ", k); return v ? 0.5 : 0.0; }\nstatic float EF(int k, int v) { printf("%d ", k); return v ? 1e-30f : -0.0f; }\n'
+                'static char *EP(int k, int v) { printf("%d ", k); return v ? "p" : (char *)0; }\nstatic unsigned char EC(int k, int v) { printf("%d ", k); return v ? 128 : 0; }\n' +
                 '\n'.join(fns) + '\nint main(void) { for (int r = 0; r < 3; r++) { ' + ' '.join('f%d();' % f for f in range(len(fns))) + ' } printf("\\n"); return 0; }\n')
 
 # ------------------------------------------------------------ (c) scoping
@@ -348,6 +376,8 @@ def main():
     progs = []
     for k in range(NB):
         f = os.path.join(wd, 'tr%d.c' % k); open(f, 'w').write(TraceGen(rng).program()); progs.append(f)
+    for k, t in enumerate(TraceGen.typed_grid_programs()):
+        f = os.path.join(wd, 'trgrid%d.c' % k); open(f, 'w').write(t); progs.append(f)
     def one_b(f): return f, build_run(f, 'chibicc'), build_run(f, 'gcc')
     for f, (o1, w1), (o2, w2) in pmap(one_b, progs):
         evals += 1
